@@ -97,9 +97,7 @@ def obligations(tier):
         wr(L, "t", "[7???", 4, 1, 1, 0, bb, covers=SEQ + ["flushed-inside-value"], ptr=True)
         if not bb:
             wr(L, "t", "???", 4, 1, 2, 0, bb, covers=SEQ + ["top-level-done"])
-            wr(L, "t", "{a[??", 16, 6, 4, 3, bb, covers=SEQ)
-        else:
-            wr(L, "t", "{a[??", 16, 4, 3, 3, bb, covers=SEQ)
+        wr(L, "t", "{a[??", 16, 4, 3, 3, bb, covers=SEQ)
     short(L, "[s{as}]", 4, 1, 0, 1, 1, 5)
     short(L, "{as}n", 4, 1, 0, 1, 2, 3)
     short(L, "n[s]", 8, 3, 0, 3, 1, 2, ptr=True)
@@ -113,15 +111,17 @@ def obligations(tier):
         short(L, "n[s]n", 16, 6, 0, 3, 2, 3)
         short(L, "[7??", 4, 1, 2, 0, 1, 3)
         short(L, "{a7??", 4, 1, 2, 0, 1, 3, ptr=True)
-        short(L, "n??", 8, 2, 3, 1, 2, 3)
+        short(L, "n??", 8, 1, 2, 1, 2, 2, covers=("fault-seen", "recovered"))
     for c in (4, 8, 16):
         unwrite(L, 0, 2, c, 1)
         unwrite(L, 1, 2, c, 2, nsoff=False, probe=True)
         unwrite(L, 2, 2, c, 1, ws=1, ptr=True)
         if not q:
             unwrite(L, 0, 3, c, 1)
-            unwrite(L, 1, 3, c, 1, nsoff=False, probe=True, ws=2)
-            unwrite(L, 2, 3, c, 2, ws=1, ptr=True, bbuf=True)
+            if c == 8:
+                unwrite(L, 1, 3, c, 1, nsoff=False, probe=True, ws=2)
+            else:
+                unwrite(L, 2, 3, c, 2, ws=1, ptr=True, bbuf=True)
             unwrite(L, 1, 2, c, 1, sym=True, ptr=True)
             unwrite(L, 0, 2, c, 3, bbuf=True)
     unwrite(L, 1, 2, 8, 1, bbuf=True)
